@@ -11,7 +11,7 @@ import (
 
 func init() {
 	register(&Rule{ID: "ORD-19", Title: "a possibly-sealed tail writer is never installed or left behind without asking Sealed() and rotating",
-		Props: []string{"C03", "C01"}, Floor: 2, Run: runORD19})
+		Props: []string{"C03", "C01", "C05", "C04"}, Floor: 2, Run: runORD19})
 	register(&Rule{ID: "ORD-20", Title: "a failed Open closes the metadata store and the segments it opened",
 		Props: []string{"C11"}, Floor: 4, Run: runORD20})
 	register(&Rule{ID: "ORD-21", Title: "Close protocol: swap-once, then under the lock trigger closed, state emptied, closers attached, meta store closed, waiter woken",
